@@ -226,8 +226,8 @@ if {{reject}}:
     raise Exception({{msg}})
 v2, v3 = ([v1], [])
 v4, v5 = (v1, v0.connectivity.vertex_to_vertices(v1)[{{first_index}}])
-v6 = {{nvisited0}}
-v7 = {{max_visited}}
+@NV@ = {{nvisited0}}
+@MX@ = {{max_visited}}
 while {{cont}}:
     v2.append({{emit_v}})
     v3.append(v0.connectivity.edge_id({{emit_e}}))
@@ -282,8 +282,20 @@ def gen_border(parts):
     if [a.arg for a in fn.args.args] != ["mesh", "starting_point"] or len(fn.args.defaults) != 1 \
             or not (isinstance(fn.args.defaults[0], ast.Constant) and fn.args.defaults[0].value is None):
         T.fail(BORDER, fn, "signature is not (mesh, starting_point=None)")
-    h = match_lines(BORDER, "extract_border_cycle", canon_fn(fn, BORDER), CYCLE_T)
     W = "extract_border_cycle"
+    lines = canon_fn(fn, BORDER)
+    # the two independent initialisations `nvisited = 0` / `MAX_VISITED = len(...)` may come in either order
+    first_err = None
+    for NV, MX in (("v6", "v7"), ("v7", "v6")):
+        t = CYCLE_T.replace("@NV@ = {{nvisited0}}\n@MX@ = {{max_visited}}",
+                            "\n".join(sorted(["%s = {{nvisited0}}" % NV, "%s = {{max_visited}}" % MX])))
+        try:
+            h = match_lines(BORDER, W, lines, t)
+            break
+        except TranslationError as ex:
+            first_err = first_err or ex
+    else:
+        raise first_err
     e = Ex(BORDER, W, {"len(v0.boundary_vertices)": ("Z", "nb")})
     out.append("Definition cyc_no_border (nb : Z) : bool := %s." % e.b(e.parse(h["no_border"])))
     e = Ex(BORDER, W, {})
@@ -295,7 +307,7 @@ def gen_border(parts):
     out.append("Definition cyc_nvisited0 : Z := %s." % e.z(e.parse(h["nvisited0"])))
     e = Ex(BORDER, W, {"len(v0.vertices)": ("Z", "nV")})
     out.append("Definition cyc_max_visited (nV : Z) : Z := %s." % e.z(e.parse(h["max_visited"])))
-    loopenv = {"v1": ("Z", "start"), "v4": ("Z", "p1"), "v5": ("Z", "p2"), "v6": ("Z", "nvisited"), "v7": ("Z", "maxv")}
+    loopenv = {"v1": ("Z", "start"), "v4": ("Z", "p1"), "v5": ("Z", "p2"), NV: ("Z", "nvisited"), MX: ("Z", "maxv")}
     e = Ex(BORDER, W, loopenv)
     out.append("Definition cyc_continue (p2 start nvisited maxv : Z) : bool := %s." % e.b(e.parse(h["cont"])))
     penv = {"v4": ("Z", "p1"), "v5": ("Z", "p2")}
@@ -307,8 +319,8 @@ def gen_border(parts):
     out.append("Definition cyc_accept (onb : bool) (v p1 p2 : Z) : bool := %s." % e.b(e.parse(h["accept"])))
     e = Ex(BORDER, W, dict(penv, **{"v8": ("Z", "v")}))
     out.append("Definition cyc_move (p1 p2 v : Z) : Z * Z := (%s, %s)." % e.pair(h["move"]))
-    e = Ex(BORDER, W, {"v6": ("Z", "n")})
-    out.append("Definition cyc_nvisited_step (n : Z) : Z := %s." % e.z(e.parse(aug(BORDER, W, h["step"], "v6"))))
+    e = Ex(BORDER, W, {NV: ("Z", "n")})
+    out.append("Definition cyc_nvisited_step (n : Z) : Z := %s." % e.z(e.parse(aug(BORDER, W, h["step"], NV))))
     e = Ex(BORDER, W, penv)
     out.append("Definition cyc_last_e (p1 p2 : Z) : Z * Z := (%s, %s)." % e.pair(h["last_e"]))
 
